@@ -49,6 +49,8 @@ type Link struct {
 	// faults
 	Mangle     func(l *Link, data []byte) []byte // nil result = chunk withheld
 	StallUntil time.Duration
+	// WriteBlockUntil: writes block (the writer sleeps) until this simulated time
+	WriteBlockUntil time.Duration
 	Discard    bool
 
 	// record
@@ -78,6 +80,13 @@ func (l *Link) signalLocked() {
 func (l *Link) Write(p []byte) (int, error) {
 	Yield("lw:" + l.Name)
 	w := l.W
+	// back-pressure: the reader is not draining (a full pipe): the writer blocks until it does
+	w.mu.Lock()
+	until := l.WriteBlockUntil
+	w.mu.Unlock()
+	if d := until - w.Now(); d > 0 {
+		Sleep(d)
+	}
 	w.mu.Lock()
 	if l.werr != nil {
 		err := l.werr
